@@ -19,6 +19,8 @@ pub enum Src {
 pub enum Step {
     Normal(Op),
     Copy { pick: u16, rename: Option<String> },
+    /// `Write::flush` on the writer (must leave everything written so far as it is)
+    Flush,
 }
 #[derive(Clone, Debug, Serialize, Deserialize, Hash)]
 pub struct Case {
@@ -104,6 +106,10 @@ fn check(c: &Case, info: &mut Info) -> Result<(), String> {
                         comment = cm;
                     }
                     want.extend(m.into_iter().map(Want::Normal));
+                }
+                Step::Flush => {
+                    use std::io::Write;
+                    w.flush().map_err(|e| format!("flush() failed: {e}"))?;
                 }
                 Step::Copy { pick, rename } => {
                     let cands: Vec<usize> = (0..src.len()).filter(|i| !src[*i].encrypted).collect();
@@ -278,7 +284,7 @@ fn check_straddle(sizes: &[(u64, u64)], dst_start: u64) -> Result<(), String> {
 }
 
 pub fn run(ctx: &mut Ctx) {
-    ctx.rule("case = source archive (crate-written program or independent-builder spec: all methods incl. ids the crate cannot decode, data descriptors, forced ZIP64, any DOS time bits, DOS/Unix/other attributes, CP437 names) opened through a reader with a generated short-read schedule x destination program interleaving raw copies (with/without rename) with ordinary entries of every kind. Oracle: destination raw bytes == source raw bytes; method, CRC, sizes, timestamp words equal; permission bits equal when the source states a mode; decoded content equal where decodable; neighbours intact; strict parse of the destination. straddle: hand-laid-out sparse sources whose declared uncompressed/compressed sizes lie on either side of 4 GiB (e.g. 5 GiB+123 -> 1500 bytes), copied between two ordinary entries; local header, central record and both readers must state the source sizes. Non-trivial = a copy of non-empty data with a normally written neighbour.");
+    ctx.rule("case = source archive (crate-written program or independent-builder spec: all methods incl. ids the crate cannot decode, data descriptors, forced ZIP64, any DOS time bits, DOS/Unix/other attributes, CP437 names) opened through a reader with a generated short-read schedule x destination program interleaving raw copies (with/without rename) with ordinary entries of every kind and flush() calls. Oracle: destination raw bytes == source raw bytes; method, CRC, sizes, timestamp words equal; permission bits equal when the source states a mode; decoded content equal where decodable; neighbours intact; strict parse of the destination. straddle: hand-laid-out sparse sources whose declared uncompressed/compressed sizes lie on either side of 4 GiB (e.g. 5 GiB+123 -> 1500 bytes), copied between two ordinary entries; local header, central record and both readers must state the source sizes. Non-trivial = a copy of non-empty data with a normally written neighbour.");
     ctx.assume("a source without a Unix mode (unix_mode()==None) states no permission bits, so nothing is compared for it; file-type bits are not part of the claim");
     let n = ctx.q(8000, 80000);
     let maxc = ctx.q(200_000u32, 4 << 20);
@@ -290,6 +296,7 @@ pub fn run(ctx: &mut Ctx) {
                 2 => (any::<u16>(), prop_oneof![2 => Just(None), 1 => gen::name().prop_map(Some)]).prop_map(|(pick, rename)| Step::Copy { pick, rename }),
                 2 => gen::basic_op(20000, true).prop_map(Step::Normal),
                 1 => gen::extra_op(5000).prop_map(Step::Normal),
+                1 => Just(Step::Flush),
             ];
             (
                 prop_oneof![1 => gen::program(5, maxc, true, false).prop_filter("non-empty", |p| gen::entry_count(p) > 0).prop_map(|p| Src::Written(gen::tame(p))), 1 => genf::archive(5, maxc.min(100000), true).prop_filter("non-empty", |s| !s.entries.is_empty()).prop_map(Src::Foreign)],
@@ -307,6 +314,7 @@ pub fn run(ctx: &mut Ctx) {
             info.label_if(!c.src_schedule.is_empty(), "src:short-reads");
             info.label_if(c.steps.iter().any(|s| matches!(s, Step::Copy { rename: Some(_), .. })), "rename");
             info.label_if(c.steps.iter().all(|s| matches!(s, Step::Copy { .. })), "only-copies");
+            info.label_if(c.steps.windows(2).any(|w| matches!(w[0], Step::Copy { .. }) && matches!(w[1], Step::Flush)), "flush-after-copy");
             if let Src::Foreign(s) = &c.src {
                 info.label_if(s.entries.iter().any(|e| !matches!(e.method, 0 | 8 | 12 | 93)), "src:unsupported-method");
                 info.label_if(s.entries.iter().any(|e| e.desc != crate::refzip::Desc::None), "src:data-descriptor");
